@@ -29,7 +29,20 @@ def is_clock_reader(body):
     return False
 
 
+CLOCK_READERS = set()       # paths of the workspace functions that wrap libc::clock_gettime (kept opaque by mk_engine)
+
+
+def is_clock_read(name):
+    """is the callee a clock read: libc's clock_gettime itself or one of the workspace wrappers around it?"""
+    return name in CLOCK_READERS or name.split('::')[-1] == 'clock_gettime' or 'clock_gettime' in name.split('::')[-1]
+
+
 def mk_engine(fb, inline_depth=6, no_inline=None, **kw):
+    if not CLOCK_READERS or _ANCHORS.get('clock_fb') is not fb:
+        _ANCHORS['clock_fb'] = fb
+        CLOCK_READERS.clear()
+        CLOCK_READERS.update(b.path for b in fb.bodies() if is_clock_reader(b))
+
     def flt(b):
         if is_clock_reader(b):
             return False
@@ -51,7 +64,7 @@ def clock_read_id(v):
         v = inner
     if v[0] == 't' and v[1] == 'call':
         name = v[2][0]
-        if 'clock_gettime' in name:
+        if is_clock_read(name):
             args = v[2][2:]
             if args and psi.is_int_const(args[0]):
                 return args[0][1], v
@@ -351,6 +364,120 @@ def reachable_calls(fb, body, seen=None, depth=0):
         nb = fb.body(nm) or (fb.body(fn['path']) if fn.get('defkind') == 'Closure' else None)
         if nb is not None:
             yield from reachable_calls(fb, nb, seen, depth + 1)
+
+
+_ANCHORS = {}
+
+
+def _memo(fb, key, fn):
+    if _ANCHORS.get('fb') is not fb:
+        _ANCHORS.clear()
+        _ANCHORS['fb'] = fb
+    if key not in _ANCHORS:
+        _ANCHORS[key] = fn()
+    return _ANCHORS[key]
+
+
+def daemon_main(fb):
+    ms = [b for b in fb.bodies() if b.name == 'main' and b.crate.kind == 'bin' and b.crate.name == 'clockbound']
+    return ms[0] if ms else None
+
+
+def thread_manager(fb):
+    """the daemon function that spawns the worker threads (semantic anchor: calls std::thread::spawn, is reached from
+    the binary's main), whatever module it lives in"""
+    def find():
+        cands = [b for b in fb.bodies(DAEMON) if b.defkind != 'Closure' and
+                 any(fn and mir.callee_name(fn).endswith('thread::spawn') for _, _, fn in user_calls(b))]
+        mb = daemon_main(fb)
+        if mb is not None:
+            reach = [b for b in cands if reaches_call(fb, mb, lambda nm, p=b.path: nm == p)]
+            cands = reach or cands
+        return cands[0] if cands else None
+    return _memo(fb, 'thread_manager', find)
+
+
+def context_type(fb):
+    """type string of the per-thread context: the daemon type whose Drop impl sends a message (the death notice)"""
+    def find():
+        for b in fb.bodies(DAEMON):
+            if b.name == 'drop' and (b.impl_trait or '').endswith('Drop') and b.impl_self and \
+                    reaches_call(fb, b, lambda nm: nm.endswith(('Sender::<T>::send', 'DispatchBox::<K, M>::send'))):
+                return b.impl_self
+        return None
+    return _memo(fb, 'context_type', find)
+
+
+def builds_variant(fb, body, adt_suffix, variant, depth=0, seen=None):
+    """does `body` (or a closure / workspace function it reaches) construct the given enum variant?"""
+    seen = seen if seen is not None else set()
+    if body.path in seen or depth > 5:
+        return False
+    seen.add(body.path)
+    for blk in body.blocks:
+        for s in blk['stmts']:
+            if s['k'] == 'assign' and s['r']['k'] == 'agg' and (s['r'].get('adt') or '').endswith(adt_suffix) and s['r'].get('vname') == variant:
+                return True
+    for b2 in fb.bodies(body.crate.name):
+        if b2.defkind == 'Closure' and b2.path.startswith(body.path + '::{closure') and builds_variant(fb, b2, adt_suffix, variant, depth + 1, seen):
+            return True
+    for bb, t, fn in user_calls(body):
+        nb = fb.body(mir.callee_name(fn)) if fn else None
+        if nb is not None and builds_variant(fb, nb, adt_suffix, variant, depth + 1, seen):
+            return True
+    return False
+
+
+def reaches_call_c(fb, body, pred):
+    """reaches_call, also looking into the closures written inside `body` (they may only be handed to an adaptor)"""
+    if reaches_call(fb, body, pred):
+        return True
+    return any(b2.defkind == 'Closure' and b2.path.startswith(body.path + '::{closure') and reaches_call(fb, b2, pred)
+               for b2 in fb.bodies(body.crate.name))
+
+
+def abort_broadcast(fb):
+    """the daemon function that tells every other thread to stop: builds Message::ThreadAbort, reaches a send, and is
+    called from the thread manager (the manager itself if the broadcast is written inline)"""
+    def find():
+        tm = thread_manager(fb)
+        if tm is None:
+            return None
+        cands = []
+        for bb, t, fn in user_calls(tm):
+            nb = fb.body(mir.callee_name(fn)) if fn else None
+            if nb is not None and nb.crate.name == DAEMON and builds_variant(fb, nb, 'Message', 'ThreadAbort') and \
+                    reaches_call_c(fb, nb, lambda nm: nm.endswith(('Sender::<T>::send', 'DispatchBox::<K, M>::send'))):
+                cands.append(nb)
+        return cands[0] if cands else None
+    return _memo(fb, 'abort_broadcast', find)
+
+
+HDR_ROLE_AT = {0: 'magic', 8: 'segsize', 12: 'version', 14: 'generation'}          # docs/PROTOCOL.md offsets
+REC_ROLE_AT = {0: 'as_of', 16: 'void_after', 32: 'bound_nsec', 40: 'max_drift_ppb', 44: 'reserved1', 48: 'clock_status'}
+
+
+def abi_names(fb):
+    """{'hdr': {role: field name}, 'rec': {role: field name}}: what the struct fields at the documented offsets are
+    called in this tree (so rules name fields by their place in the published layout, not by identifier)"""
+    def find():
+        out = {'hdr': {}, 'rec': {}}
+        for c in fb.crates:
+            for k, a in c.adts.items():
+                if 'size' not in a or not a.get('variants'):
+                    continue
+                which = 'hdr' if k.endswith('::ShmHeader') else 'rec' if k == 'clock_bound_shm::ClockErrorBound' else None
+                if which is None:
+                    continue
+                table = HDR_ROLE_AT if which == 'hdr' else REC_ROLE_AT
+                for f in a['variants'][0]['fields']:
+                    if f['offset'] in table:
+                        out[which].setdefault(table[f['offset']], f['name'])
+        for which, table in (('hdr', HDR_ROLE_AT), ('rec', REC_ROLE_AT)):
+            for role in table.values():
+                out[which].setdefault(role, role)
+        return out
+    return _memo(fb, 'abi_names', find)
 
 
 _CALLERS = [None, None]
